@@ -409,7 +409,8 @@ CONN_STREAM = {"name": "conn", "quick": 600, "thorough": 30000, "head": 1, "unit
 CONN_RULE = (" | conn: the leaf contract on hyperdriver's own HttpConnection (HTTP/1.1 via Protocol::connect over a duplex, real hyper): "
              "random walks of send / peer sends head+part of the body / peer sends the rest / poll the response / read the body / drop the "
              "response unread / peer closes; after every step is_open(), poll_ready() and can_share() are read at the same instant and must "
-             "satisfy is_open = (poll_ready is Ready(Ok)), can_share = false - the model's isOpenC with lax = false")
+             "satisfy is_open = (poll_ready is Ready(Ok)), can_share = false - the model's isOpenC with lax = false; one walk in five is over an HTTP/2 "
+             "HttpConnection against a real hyper HTTP/2 server (send / poll / server goes away): can_share = true, and is_open until the peer is gone, not after")
 
 def pool_prop(mod, prefixes, theorems, timed=False, mt=False, leaf=False):
     return {"props_module": mod, "class_prefix": prefixes, "theorems": theorems,
@@ -507,7 +508,7 @@ PROPS = {
         "Hd.Pool.C04_one_attempt_per_origin", "Hd.Pool.C04_attempt_ids_distinct", "Hd.Pool.step_minv", "Hd.Pool.run_minv",
         "Hd.Pool.C04_released_connection_is_kept", "Hd.Pool.C04_cancel_returns_unused", "Hd.Pool.C04_only_polls_dial", "Hd.Pool.dropCheckout_dials"], leaf=True),
     "C05": pool_prop("HdModel.Props.C05", ["C05/"], ["Hd.Pool.C05_pop_spec", "Hd.Pool.C05_expired_head", "Hd.Pool.C05_no_timeout_never_expires",
-        "Hd.Pool.C05_pop_suffix", "Hd.Pool.C05_issue_fresh"], timed=True),
+        "Hd.Pool.C05_pop_suffix", "Hd.Pool.C05_issue_fresh"], timed=True, leaf=True),
     "C06": pool_prop("HdModel.Props.C06", ["C06/"], ["Hd.Pool.C06_request_gets_own_origin", "Hd.Pool.C06_held_same_origin",
         "Hd.Pool.C06_idle_same_origin", "Hd.Pool.step_originInv", "Hd.Pool.run_originInv", "Hd.Pool.step_coSame",
         "Hd.Pool.C06_tokenOf", "Hd.Pool.C06_tokens_distinct", "Hd.Pool.C06_new_conn_origin", "Hd.Pool.keysOk_init"], mt=True),
